@@ -208,6 +208,12 @@ func (ids ACLServiceIdentities) Deduplicate() ACLServiceIdentities {
 	for _, id := range ids {
 		entry, ok := unique[id.ServiceName]
 		if ok {
+			// An identity without datacenters is valid in every datacenter and
+			// must not be narrowed by a scoped duplicate of the same name.
+			if len(entry.Datacenters) == 0 || len(id.Datacenters) == 0 {
+				entry.Datacenters = nil
+				continue
+			}
 			dcs := stringslice.CloneStringSlice(id.Datacenters)
 			sort.Strings(dcs)
 			entry.Datacenters = stringslice.MergeSorted(dcs, entry.Datacenters)
